@@ -168,8 +168,13 @@ def mentions(e, pred):
         return True
     if isinstance(e, tuple):
         for x in e[1:]:
-            if isinstance(x, tuple) and mentions(x, pred):
-                return True
+            if isinstance(x, tuple):
+                if x and isinstance(x[0], tuple):
+                    # an argument list: a tuple of expressions without a tag of its own
+                    if any(mentions(y, pred) for y in x if isinstance(y, tuple)):
+                        return True
+                elif mentions(x, pred):
+                    return True
     return False
 
 
